@@ -30,13 +30,14 @@ import (
 // serves; then its lease renewals start failing (the process stays alive) and nobody takes over for a while; later another
 // identity takes the lease.
 //
-// What "holds leadership" means is read from the lease object itself: once the lease names this server but its renewTime is
-// older than the lease duration, the lease has EXPIRED - the server does not hold the shard any more, whatever it believes
-// (client-go makes a healthy holder give up after RenewDeadline = 0.6 s, the lease here lasts 4 s, so a conforming server has
-// had seconds to notice). The clock is used only to establish that fact (renewTime + LeaseDuration + margin < now, a measured
-// one-sided inequality); renewals keep failing, so the fact stays true for the whole observation. From then on: the server
-// must not name itself leader of the shard (IsLeader / GetLeaders / ServerInfo), must refuse allocate and acquire, and must
-// hold no store for the shard - also not a second later (leaderCheck runs every second).
+// When does the server certainly NOT hold the shard? Not by the clock (on a saturated machine a correct holder may need
+// seconds to notice that its renewals fail; an earlier version judged from "the lease object has expired" and raised a false
+// alarm under load). Instead: (1) the elector itself has ended the term - client-go delivered OnStoppedLeading, seen by a
+// recorder wrapped around the rateLimiter's own stop callback - and (2) no new term can have begun: a term starts with a
+// successful write of the lease, and the reactor refuses every lease write of this identity from the moment renewals were cut.
+// From that observation on: the server must not name itself leader of the shard
+// (IsLeader / GetLeaders / ServerInfo), must refuse allocate and acquire, and must hold no store for the shard - also not a
+// second later (leaderCheck runs every second): 30 observations, 100 ms apart.
 // One shard per scenario and no instance heartbeats: that keeps the run clear of the unsynchronised maps of the rateLimiter
 // (upstreamLock, limitStoreMap iteration in cleanupTimeoutClient), which are not this property's subject.
 func realElectorScenario(r *vkit.R, g *vkit.Rand) {
@@ -75,6 +76,14 @@ func realElectorScenario(r *vkit.R, g *vkit.Rand) {
 		_ = up.Indexer.Add(buildUpstream(u, 100))
 	}
 	rl, h := limiter.VerifNewRateLimiter(gatewayfake.NewSimpleClientset(), options.RateLimitOptions{ShardingCount: 1, LimitStore: "local", Identity: identity, LeaderElectionConfiguration: cfg}, el, up)
+	var termsEnded int32
+	el.SetCallbacks(elector.LeaderCallbacks{ // the rateLimiter's own callbacks, with a recorder around the stop callback
+		OnStartedLeading: h.StartLeading,
+		OnStoppedLeading: func(s int) {
+			h.StopLeading(s)
+			atomic.AddInt32(&termsEnded, 1)
+		},
+	})
 	// The real election plus the periodic leaderCheck exactly as rateLimiter.sync runs it (every second). rateLimiter.Run
 	// itself is not used: it also starts cleanupUnknownCondition at t=0, which iterates limitStoreMap without the lock while
 	// the first election inserts its store (a "concurrent map iteration and map write" crash of the process, not this
@@ -150,26 +159,27 @@ func realElectorScenario(r *vkit.R, g *vkit.Rand) {
 		return *l.Spec.HolderIdentity, time.Since(l.Spec.RenewTime.Time) > leaseDuration+margin, true
 	}
 
-	// phase 2: renewals fail; wait until the lease object itself says the term is over
+	// phase 2: renewals fail; wait until the elector has ended its term
+	ended0 := atomic.LoadInt32(&termsEnded)
 	atomic.StoreInt32(&partitioned, 1)
 	logf("lease updates of %s start failing", identity)
-	if !vkit.WaitFor(40*time.Second, func() bool {
-		holder, expired, ok := leaseState()
-		if ok && holder == identity && expired {
+	if !vkit.WaitFor(90*time.Second, func() bool {
+		if atomic.LoadInt32(&termsEnded) > ended0 {
 			return true
 		}
-		time.Sleep(50 * time.Millisecond)
+		time.Sleep(20 * time.Millisecond)
 		return false
 	}) {
-		r.Inconclusive("real elector: the lease did not expire within the watchdog after renewals started failing")
+		r.Inconclusive("real elector: the elector did not end its term within the watchdog after renewals started failing")
 		return
 	}
-	logf("lease %s has expired (renewTime older than %v): the server does not hold shard 0 any more", leaseName, leaseDuration)
+	logf("the elector delivered OnStoppedLeading; its lease writes keep failing, so no new term can begin")
 
 	observe := func(phase, class string, rounds int, wantLeader string) {
 		for k := 0; k < rounds; k++ {
 			holder, expired, ok := leaseState()
-			if !ok || (wantLeader == "" && !(holder == identity && expired)) || (wantLeader != "" && holder != wantLeader) {
+			_ = expired
+			if !ok || (wantLeader == "" && holder != identity) || (wantLeader != "" && holder != wantLeader) {
 				r.Inconclusive("real elector: the lease changed unexpectedly during the observation (" + phase + ")")
 				return
 			}
@@ -213,7 +223,7 @@ func realElectorScenario(r *vkit.R, g *vkit.Rand) {
 			time.Sleep(100 * time.Millisecond)
 		}
 	}
-	observe("lease expired, nobody took over yet", "lease-expired", 30, "")
+	observe("term ended (renewals failing), nobody took over yet", "term-ended", 30, "")
 
 	// phase 3: another identity takes the lease (its writes pass); wait until the server has heard of it
 	other := "http://limiter-other"
